@@ -82,7 +82,14 @@ func (x *Exec) eval(e ast.Expr, st *St, fr *Frame, k kval) {
 						oos("unsupported slice expression")
 					}
 					x.safety(st, fr, And(Cmp("<=", IntLit(0), l.T), Cmp("<=", l.T, h.T), Cmp("<=", h.T, SeqLen(a.T))), "slice", n.Lbrack)
-					k(st, &Val{T: SeqDrop(SeqTake(a.T, h.T), l.T), Ty: fr.typeOf(n)})
+					t := a.T
+					if n.High != nil {
+						t = SeqTake(t, h.T)
+					}
+					if n.Low != nil {
+						t = SeqDrop(t, l.T)
+					}
+					k(st, &Val{T: t, Ty: fr.typeOf(n)})
 				})
 			})
 		})
@@ -327,6 +334,15 @@ func (x *Exec) binop(n *ast.BinaryExpr, st *St, fr *Frame, a, b *Val) *Val {
 		return &Val{T: Arith("*", a.T, b.T), Ty: ty}
 	case token.QUO, token.REM:
 		x.safety(st, fr, Neq(b.T, IntLit(0)), "divzero", n.OpPos)
+		if _, isConst := b.T.IntVal(); !isConst {
+			// symbolic divisor: Go's truncated division agrees with SMT div/mod on a non-negative dividend and a positive
+			// divisor; that sign condition is an obligation, and the result is then the plain SMT term (no nonlinear encoding)
+			x.safety(st, fr, And(Cmp(">=", a.T, IntLit(0)), Cmp(">", b.T, IntLit(0))), "div-signs", n.OpPos)
+			if n.Op == token.QUO {
+				return &Val{T: mk("div", SInt, a.T, b.T), Ty: ty}
+			}
+			return &Val{T: mk("mod", SInt, a.T, b.T), Ty: ty}
+		}
 		q := goDiv(a.T, b.T)
 		if n.Op == token.QUO {
 			return &Val{T: q, Ty: ty}
